@@ -108,6 +108,7 @@ class Session:
         self.st = st
         self.role = role
         self.clock = seams.StepClock()
+        GS.VARIANT = plan.get("gateset_variant", 0)
         self.G = GS.build_gateset(style=plan.get("gateset_style", "direct"))
         if plan.get("gateset") == "nobusy":
             # a native gate table that lacks prepare_all / measure_all
@@ -130,6 +131,7 @@ class Session:
 
     # ---------------------------------------------------------------- housekeeping
     def close(self):
+        GS.VARIANT = 0
         GS.CALLBACK = None
         GS.PULSE_TOP_CALLBACK = None
         for m in list(self._modules):
@@ -542,7 +544,7 @@ def plan_c11(run_seed):
                 nested["override"] = {}
             op["nested"] = {"at": t.randrange(6), "op": nested}
         ops.append(op)
-    return {"engine": "E1", "prop": "C11", "run_seed": run_seed, "texts": texts, "ops": ops, "gateset": t.weighted([("full", 5), ("nobusy", 1)]), "gateset_style": t.choice(["direct", "direct", "copied"]), "tapes": None}
+    return {"engine": "E1", "prop": "C11", "run_seed": run_seed, "texts": texts, "ops": ops, "gateset": t.weighted([("full", 5), ("nobusy", 1)]), "gateset_style": t.choice(["direct", "direct", "copied"]), "gateset_variant": t.randrange(4), "tapes": None}
 
 
 def output_list_for(sess, op, entry_ti, c):
@@ -865,11 +867,14 @@ def plan_c16(run_seed):
             continue
         via = t.weighted([("string", 5), ("file", 1.5), ("sexpr", 1), ("header", 0.6), ("header_file", 0.3), ("run_string", 2 if e.get("pulses") else 0), ("run_file", 1 if e.get("pulses") else 0), ("run", 3 if not e.get("anon") else 0.5)])
         op = {"op": "parse", "text": ti, "kw": kw if via in ("string", "file", "run") else {}, "via": via}
+        if via in ("run", "run_string", "run_file"):
+            op["variant"] = t.randrange(4)  # the gate definitions in force for this call
         if t.chance(p_interrupt):
             op["interrupt"] = t.random()
         if via in ("run", "run_string", "run_file") and e.get("exec") and t.chance(p_nested):
-            other = t.randrange(len(texts))
-            op["nested"] = {"at": t.randrange(5), "op": {"op": "parse", "text": other, "kw": {}, "via": "string", "bad_seed": t.randrange(1 << 30) if t.chance(0.6) else None}}
+            other = ti if t.chance(0.6) else t.randrange(len(texts))
+            bad = t.randrange(1 << 30) if t.chance(0.4) else None
+            op["nested"] = {"at": t.randrange(5), "op": {"op": "parse", "text": other, "kw": {}, "via": "string", "bad_seed": bad, "run": bad is None and t.chance(0.7)}}
         if e.get("pulses") and t.chance(p_nested):
             other = t.randrange(len(texts))
             op["nested_pulse_top"] = {"op": "parse", "text": other, "kw": {}, "via": "string", "bad_seed": t.randrange(1 << 30) if t.chance(0.6) else None}
@@ -1059,15 +1064,25 @@ def materialise_c16(plan):
 
 
 def nested_parse(S, inner, j):
-    """A parse performed while another call is half-way (re-entrancy)."""
+    """A parse (or a whole emulation) performed while another call is half-way
+    (re-entrancy)."""
     from jaqalpaq.parser import parse_jaqal_string
+    from jaqalpaq.run import run_jaqal_circuit
 
     txt = S.text(inner["text"])
     if inner.get("bad_seed") is not None:
         txt, _ = corrupt(txt, Tape(inner["bad_seed"]))
     kw = S.parse_kwargs(inner["text"], {})
     try:
-        parse_jaqal_string(txt, **kw)
+        c = parse_jaqal_string(txt, **kw)
+        if inner.get("run"):
+            sN = seams.SimSampler(Tape(H(S.plan["run_seed"], "nested-sampler", j)), "faithful")
+            oldN = seams.install_sampler(sN)
+            try:
+                run_jaqal_circuit(c)
+            finally:
+                seams.install_sampler(oldN)
+            S.probe("nested_emulation_fired")
         S.nested_log.append((j, "nested_parse", "ok"))
     except BaseException as e:
         if isinstance(e, (seams.StepBudgetExceeded, seams.SimInterrupt)):
@@ -1108,6 +1123,7 @@ def exec_c16(plan, role="main", order=None):
                 text = S.text(op["text"])
             except BaseException as e:
                 raise
+            GS.VARIANT = op.get("variant", 0)
             fn = c16_callable(S, op, j)
             budget = budget_parse(text) + (5_000_000 if op.get("via") in ("run", "run_string", "run_file") else 0)
             allowed = allowed_for(S, op)
